@@ -52,12 +52,34 @@ _WORK_FN = None
 
 
 def _child_call(args):
+    """Each item runs in its own fork of the (pristine) pool worker, so that item i is a pure function of
+    (seed, i) and the tree even when the code under test keeps state between calls."""
     idx, item, timeout = args
-    faulthandler.dump_traceback_later(timeout, exit=True)
-    try:
-        return idx, _WORK_FN(item)
-    finally:
-        faulthandler.cancel_dump_traceback_later()
+    import pickle
+    r, w = os.pipe()
+    pid = os.fork()
+    if pid == 0:
+        try:
+            os.close(r)
+            faulthandler.dump_traceback_later(timeout, exit=True)
+            try:
+                payload = ('ok', _WORK_FN(item))
+            except BaseException:
+                payload = ('err', traceback.format_exc())
+            with os.fdopen(w, 'wb') as f:
+                pickle.dump(payload, f, protocol=4)
+        finally:
+            os._exit(0)
+    os.close(w)
+    with os.fdopen(r, 'rb') as f:
+        data = f.read()
+    _, status = os.waitpid(pid, 0)
+    if not data:
+        raise HarnessFailure('item %r: simulation process died (status %s) or exceeded %ss' % (idx, status, timeout))
+    kind, val = pickle.loads(data)
+    if kind == 'err':
+        raise HarnessFailure('item %r raised inside the harness:\n%s' % (idx, val))
+    return idx, val
 
 
 def nproc_default():
@@ -114,6 +136,8 @@ def fan_out(fn, items, nproc=None, item_timeout=120, deadline=None, chunk=1, on_
                 if on_result:
                     on_result(idx, r)
                 submit_more()
+    except HarnessFailure:
+        raise
     except BrokenProcessPool as e:
         raise HarnessFailure('a simulation worker died or hung (per-item timeout %ss): %s' % (item_timeout, e))
     return results
